@@ -117,7 +117,7 @@ def hand_programs():
 
 def family(tier, rnd):
     P = hand_programs()
-    P += [p for p in c02.special_programs() if not p["tag"].startswith(("elseif-cond", "elseif3-cond", "if-cond", "while-cond-later", "cond-", "elif-cond-", "while-cond-"))]
+    P += [p for p in c02.special_programs() if not p["tag"].startswith(("elseif-cond", "elseif3-cond", "if-cond", "while-cond-later", "cond-", "elif-cond-", "while-cond-", "iter-declares", "iter-calls"))]
     P += [p for p in c06.scoping_programs(tier, rnd) if p["tag"] in ("nested-if-while", "recursion-own-locals", "handled-exception-locals-gone", "yield-const", "program-input-const", "loop-var-gone")]
     P += c07.object_programs()[:6]
     c8 = c08.family("quick", rnd)
